@@ -157,6 +157,9 @@ def case(job):
         same = got['counts'] == want['counts'] and [H.css_rgb(x) for x in got['reported']] == [H.css_rgb(x) for x in want['reported']] and all(got['properties'].get(k) == v for k, v in want['properties'].items())
         label = 'var-shared' if same else 'var-shared:unexpected-outcome'
         problems = [(k, label, d if same else {'command': got, 'known_behaviour_would_give': want}) for k, t, d in problems]
+    elif trigs[0] == 'unserialisable-declaration' and 'Can not serialize <ParseError' not in ((r['out'] or '') + (r['err'] or '')):
+        # the file was aborted, but not by the recorded cause (F7: tinycss2 cannot serialise a ParseError node): a different failure
+        problems = [(k, 'unserialisable-declaration:other-error', d) for k, t, d in problems]
     elif trigs[0] == 'unserialisable-declaration':
         # the abort explains exactly "no output written" and "rules after the offending one not counted"; when a shared custom
         # property is present as well, every other kind of failure on the sheet is attributed to that construct instead
